@@ -104,7 +104,9 @@ def prefix_lists(rng, quick):
 
 def address_lists(rng, quick):
     fixed = [None, None, ["11.11.11.11"], ["12.20.0.0/30"], ["10.0.0.0/8"], list(RFC1918),
-             ["11.11.11.11", "12.20.0.0/16"], ["0.0.0.0/1"], ["200.1.2.3/32", "200.1.2.2/32"]]
+             ["11.11.11.11", "12.20.0.0/16"], ["0.0.0.0/1"], ["200.1.2.3/32", "200.1.2.2/32"],
+             ["10.1.0.0/16", "10.0.0.0/8"], ["10.0.0.0/8", "10.1.0.0/16", "10.1.2.0/24"], list(RFC1918) + ["10.1.0.0/16"],
+             ["192.168.128.0/17", "192.168.0.0/16", "172.20.0.0/14"], ["50.0.0.0/7", "51.2.0.0/15", "51.3.3.0/24"]]
     out = list(fixed)
     for _ in range(2 if quick else 8):
         out.append([rand_net4(rng, rng.choice([8, 16, 20, 24, 27, 30, 31, 32])) for _ in range(rng.randint(1, 3))])
